@@ -17,7 +17,7 @@ from . import partcommon as PC
 # parameter sets for the exhaustive models: thresholds small and growing across epochs within R
 MODEL_PRM = {
     "THOO": [dict(nu=0.5, rho=0.6, rounds=20), dict(nu=1, rho=0.5, rounds=50)],
-    "HCT": [dict(nu=1, rho=0.5, c=0.42, delta=0.358), dict(nu=1, rho=0.6, c=0.3, delta=0.3)],
+    "HCT": [dict(nu=1, rho=0.5, c=0.42, delta=0.358), dict(nu=1, rho=0.6, c=0.31, delta=0.29)],
     "VHCT": [dict(nu=1, rho=0.5, c=0.42, delta=0.358, bound=1)],
 }
 IMPL = {"THOO": "T_HOO", "HCT": "HCT", "VHCT": "VHCT"}
@@ -35,22 +35,6 @@ def model_params(algo, prm, R, rewards, K_=2, emit=0, RU=2):
     P = {"kind": "kary", "K": K_, "D": 1, "metric": "rank", "algo": algo, "rewards": rewards, "R": R, "emit": emit, "tauy": [[0]]}
     P.update({k: v for k, v in t.items() if k != "amb"})
     return P
-
-
-def vhct_tauy(prm, S, H=48, KE=13):
-    """Y[k][h] = S * c^2 ln(1/delta~_k) rho^(-2h) / nu^2 (fixed point), capped"""
-    from decimal import Decimal
-    nu, rho, c, delta = K.D(prm["nu"]), K.D(prm["rho"]), K.D(prm["c"]), K.D(prm["delta"])
-    c1 = K.dpow(rho / (3 * nu), Decimal(1) / 8)
-    out = []
-    for k in range(KE + 1):
-        L = (1 / (c1 * delta / (1 << k))).ln()
-        row = []
-        for h in range(H + 1):
-            y = c * c * L * K.dpow(rho, -2 * h) / (nu * nu) * S
-            row.append(int(y) if y < 1500000000 else 1500000000)
-        out.append(row)
-    return out
 
 
 def run_model(chk, algo, prm, R, rewards, invs, label, K_=2, emit=0, props=("StepGrowth",), coverage=True):
